@@ -227,6 +227,30 @@ class JnpCopysignPlugin(PrimitiveLeafPlugin):
         _stamp_shape_like(y_negative, y_ready, y_shape)
         _ensure_value_metadata(ctx, y_negative)
 
+        # `y < 0` misses the sign bit of -0.0; 1 / -0.0 is -inf, so the reciprocal exposes it.
+        y_recip = ctx.builder.Reciprocal(
+            y_ready, _outputs=[ctx.fresh_name("jnp_copysign_y_recip")]
+        )
+        y_recip.type = y_ready.type
+        _stamp_shape_like(y_recip, y_ready, y_shape)
+        _ensure_value_metadata(ctx, y_recip)
+        y_recip_negative = ctx.builder.Less(
+            y_recip,
+            zero,
+            _outputs=[ctx.fresh_name("jnp_copysign_y_recip_negative")],
+        )
+        y_recip_negative.type = ir.TensorType(ir.DataType.BOOL)
+        _stamp_shape_like(y_recip_negative, y_ready, y_shape)
+        _ensure_value_metadata(ctx, y_recip_negative)
+        y_negative = ctx.builder.Or(
+            y_negative,
+            y_recip_negative,
+            _outputs=[ctx.fresh_name("jnp_copysign_y_signbit")],
+        )
+        y_negative.type = ir.TensorType(ir.DataType.BOOL)
+        _stamp_shape_like(y_negative, y_ready, y_shape)
+        _ensure_value_metadata(ctx, y_negative)
+
         result = ctx.builder.Where(
             y_negative, neg_abs_x, abs_x, _outputs=[desired_name]
         )
